@@ -16,13 +16,15 @@ CONSTANTS MaxRecs,          \* records (not counting SOAs) per transfer
           SerialIds,        \* which rows of SerialTable (a cfg file cannot hold tuples)
           TsigModes,        \* subset of BOOLEAN
           Empties,          \* TRUE: also partitions with one empty envelope after the first
+          Consumer,         \* TRUE: the consumer of the channel is a process of its own, free to be slow
           EmitBehaviours, Shard, NShards
 
 VARIABLES cfgv,             \* the behaviour: [mode, q, R, lens, tsig, fault, tail]
           envs,             \* what the network delivers
-          r, pos            \* receiver state; next envelope
+          r, pos,           \* receiver state; next envelope
+          taken, closed     \* consumer: the envelopes it received (an error envelope counts as <<-1>>); channel closed
 
-vars == <<cfgv, envs, r, pos>>
+vars == <<cfgv, envs, r, pos, taken, closed>>
 
 \* <<q, m, s>>: the client's serial, an intermediate one, the server's; each <<hi, lo>>
 SerialTable == <<
@@ -65,7 +67,7 @@ AmbigKinds == {"machalf", "macminus1"}             \* valid truncations (RFC 894
 FaultsFor(k, tsig) ==
   { [kind |-> "none", pos |-> 0], [kind |-> "nosoa", pos |-> 1] }
     \cup { [kind |-> f, pos |-> p] : f \in {"rcode", "id", "close", "cut"}, p \in 1..k }
-    \cup (IF tsig THEN { [kind |-> f, pos |-> p] : f \in {"alter", "unsign", "wrongkey", "drop", "dup"} \cup MacKinds, p \in 1..k }
+    \cup (IF tsig THEN { [kind |-> f, pos |-> p] : f \in {"alter", "unsign", "wrongkey", "drop", "dup", "hdrid"} \cup MacKinds, p \in 1..k }
                        \cup { [kind |-> "swap", pos |-> p] : p \in 1..(k - 1) }
           ELSE {})
 
@@ -91,6 +93,9 @@ Network(b) ==
       p  == f.pos
   IN CASE f.kind = "alter"  -> [e2 EXCEPT ![p].recs = Append(@, Rec(88)), ![p].sig = [@ EXCEPT ![4] = 0]]
        [] f.kind = "unsign" -> [e2 EXCEPT ![p].sig = NoSig]
+       \* the header ID rewritten after signing, the TSIG's original ID kept: the MAC still verifies (RFC 8945 4.3.2:
+       \* it covers the original ID), the envelope nevertheless does not carry the ID of the query
+       [] f.kind = "hdrid"  -> [e2 EXCEPT ![p].id = FALSE]
        [] f.kind \in MacKinds -> [e2 EXCEPT ![p].sig = [@ EXCEPT ![4] = IF f.kind \in AmbigKinds THEN 2 ELSE 0]]
        [] f.kind = "drop"   -> SubSeq(e2, 1, p - 1) \o SubSeq(e2, p + 1, Len(e2))
        [] f.kind = "dup"    -> SubSeq(e2, 1, p) \o SubSeq(e2, p, Len(e2))
@@ -106,18 +111,38 @@ Init == /\ \E t \in Transfers : \E l \in Partitions(Len(t.R)) : \E ts \in TsigMo
         /\ InShard(cfgv)
         /\ envs = Network(cfgv)
         /\ r = RInit /\ pos = 1
+        /\ taken = <<>> /\ closed = FALSE
 
+\* what the receiver has offered to the channel so far: the delivered envelopes, then the error envelope
+Offered == r.delivered \o (IF r.status = "error" THEN << <<-1>> >> ELSE <<>>)
+Pending == SubSeq(Offered, Len(taken) + 1, Len(Offered))
+
+\* the receiver reads the next envelope only when the consumer has taken the previous one (unbuffered channel)
 Recv == /\ r.status = "more" /\ pos <= Len(envs)
+        /\ Pending = <<>>
         /\ r' = [RStep(cfgv.mode, cfgv.q, cfgv.tsig, KeyGood, r, envs[pos]) EXCEPT !.used = pos]
         /\ pos' = pos + 1
-        /\ UNCHANGED <<cfgv, envs>>
+        /\ IF Consumer THEN UNCHANGED taken ELSE taken' = Offered'
+        /\ UNCHANGED <<cfgv, envs, closed>>
 
 End == /\ r.status = "more" /\ pos > Len(envs)
+       /\ Pending = <<>>
        /\ r' = REnd(r)
-       /\ UNCHANGED <<cfgv, envs, pos>>
+       /\ IF Consumer THEN UNCHANGED taken ELSE taken' = Offered'
+       /\ UNCHANGED <<cfgv, envs, pos, closed>>
 
-Finished == r.status # "more"
-Next == Recv \/ End \/ (Finished /\ UNCHANGED vars)
+\* the consumer takes the offered envelope -- whenever it pleases: between the offer and this action any time may pass
+Consume == /\ Consumer /\ Pending # <<>>
+        /\ taken' = Append(taken, Head(Pending))
+        /\ UNCHANGED <<cfgv, envs, r, pos, closed>>
+
+\* the receiver closes connection and channel once it is through and everything offered was taken
+Close == /\ r.status # "more" /\ Pending = <<>> /\ ~closed
+         /\ closed' = TRUE
+         /\ UNCHANGED <<cfgv, envs, r, pos, taken>>
+
+Finished == closed
+Next == Recv \/ End \/ Consume \/ Close \/ (Finished /\ UNCHANGED vars)
 
 -----------------------------------------------------------------------------
 AllRecs(es) == Concat([i \in 1..Len(es) |-> es[i]])
@@ -148,6 +173,11 @@ FaultIsReported ==
             honest == Chunks(cfgv.R, cfgv.lens)
             before == IF f.kind = "dup" THEN f.pos ELSE f.pos - 1 IN
         r.delivered = SubSeq(honest, 1, before)
+
+\* the hand-off never loses or reorders anything, however slow the consumer: when the channel closes the consumer
+\* holds every delivered envelope and, after them, the error envelope if there is one
+Handoff == /\ HandoffOK(Offered, Pending, taken)
+           /\ (closed => taken = Offered)
 
 \* the step machine and the functional run agree
 RunAgrees == Finished => LET o == Observe(cfgv.mode, cfgv.q, cfgv.tsig, KeyGood, envs) IN
